@@ -6,6 +6,7 @@ package c16
 import (
 	"crypto/md5"
 	"encoding/hex"
+	"encoding/json"
 	"fmt"
 	"math"
 	"strconv"
@@ -166,7 +167,9 @@ func hashCandidates(n *node) map[string]string {
 			vals = append(vals, up, down)
 		}
 		for _, v := range vals {
-			add("two decimals", strconv.FormatFloat(v, 'f', 2, 64))
+			for prec := 0; prec <= 6; prec++ {
+				add(fmt.Sprintf("%d decimals", prec), strconv.FormatFloat(v, 'f', prec, 64))
+			}
 		}
 		add("two decimals truncated", strconv.FormatFloat(math.Trunc(f*100)/100, 'f', 2, 64))
 		add("shortest decimal", strconv.FormatFloat(f, 'f', -1, 64))
@@ -333,10 +336,10 @@ func compare(in, out *node, covers func([]string) bool, tl *tally) *mismatch {
 // ---- verdict --------------------------------------------------------------------------
 
 type verdict struct {
-	err     error  // nil: the statement holds on this body
-	finding string // "", "C16-F1", "C16-F2": err is exactly the listed defect
-	where   string
-	tl      tally
+	err      error    // nil: the statement holds on this body
+	findings []string // non-empty: err is exactly the combination of these listed defects
+	where    string
+	tl       tally
 }
 
 // judge decides one (input body, output body) pair. passed are the exclusion
@@ -349,8 +352,22 @@ func judge(inText, outText string, rs refSet, passed []string) verdict {
 	}
 	out, err := parseDoc(outText)
 	if err != nil {
-		return verdict{err: fmt.Errorf("output is not a JSON document (%v): %.200q", err, outText)}
+		notJSON := fmt.Errorf("output is not a JSON document (%v): %.300q", err, outText)
+		// C16-F3: a key was re-quoted with Go syntax; everything else must hold
+		if ok, key := hasGoQuotedKey(in); ok {
+			if out2, err2 := parseGoQuotedDoc(outText); err2 == nil {
+				v := judgeTrees(in, out2, rs, passed)
+				if v.err == nil || len(v.findings) > 0 {
+					return verdict{err: notJSON, findings: append([]string{"C16-F3"}, v.findings...), where: key, tl: v.tl}
+				}
+			}
+		}
+		return verdict{err: notJSON}
 	}
+	return judgeTrees(in, out, rs, passed)
+}
+
+func judgeTrees(in, out *node, rs refSet, passed []string) verdict {
 	var tl tally
 	m := compare(in, out, rs.covers, &tl)
 	if m == nil {
@@ -360,10 +377,10 @@ func judge(inText, outText string, rs refSet, passed []string) verdict {
 	var tl2 tally
 	if d := compare(in, out, suffixModelCovers(passed), &tl2); d == nil {
 		if rs.bare {
-			return verdict{err: m, finding: "C16-F2", where: "", tl: tl2}
+			return verdict{err: m, findings: []string{"C16-F2"}, tl: tl2}
 		}
 		if ok, where := isSuffixExposure(in, rs, passed); ok {
-			return verdict{err: m, finding: "C16-F1", where: where, tl: tl2}
+			return verdict{err: m, findings: []string{"C16-F1"}, where: where, tl: tl2}
 		}
 	}
 	return verdict{err: m}
@@ -392,4 +409,182 @@ func nonTrivial(doc *node, rs refSet) bool {
 		}
 	}
 	return false
+}
+
+// ---- defect model: "strings re-quoted with Go syntax" (C16-F3) ---------------------------
+
+// goQuoteBreaksJSON says whether the JSON library used by the pinned
+// implementation (fastjson 1.6.4, escapeString → strconv.AppendQuote) writes the
+// string s in a form that is not JSON: it re-quotes every string that contains
+// '"', '\' or a byte below 0x20 with Go syntax, which spells control characters
+// "\x01", "\a", "\v", DEL "\x7f" and unprintable runes above U+FFFF "\U0010ffff".
+func goQuoteBreaksJSON(s string) bool {
+	special := strings.ContainsAny(s, "\"\\")
+	for i := 0; i < len(s) && !special; i++ {
+		special = s[i] < 0x20
+	}
+	return special && !json.Valid([]byte(strconv.Quote(s)))
+}
+
+func hasGoQuotedKey(doc *node) (bool, string) {
+	for _, l := range walk(doc) {
+		if l.n.K == kObj {
+			for _, k := range l.n.Keys {
+				if goQuoteBreaksJSON(k) {
+					return true, k
+				}
+			}
+		}
+	}
+	return false, ""
+}
+
+// parseGoQuotedDoc parses JSON in which string tokens may be spelled either as
+// JSON strings or as Go string literals.
+func parseGoQuotedDoc(text string) (*node, error) {
+	p := &gqParser{s: text}
+	n, err := p.value(0)
+	if err != nil {
+		return nil, err
+	}
+	p.ws()
+	if p.i != len(p.s) {
+		return nil, fmt.Errorf("trailing data at %d", p.i)
+	}
+	return n, nil
+}
+
+type gqParser struct {
+	s string
+	i int
+}
+
+func (p *gqParser) ws() {
+	for p.i < len(p.s) && strings.IndexByte(" \t\r\n", p.s[p.i]) >= 0 {
+		p.i++
+	}
+}
+
+func (p *gqParser) str() (string, error) {
+	start := p.i
+	p.i++ // opening quote
+	for p.i < len(p.s) {
+		switch p.s[p.i] {
+		case '\\':
+			p.i += 2
+		case '"':
+			p.i++
+			tok := p.s[start:p.i]
+			var js string
+			if err := json.Unmarshal([]byte(tok), &js); err == nil {
+				return js, nil
+			}
+			if gs, err := strconv.Unquote(tok); err == nil {
+				return gs, nil
+			}
+			return "", fmt.Errorf("string token %q is neither JSON nor Go syntax", tok)
+		default:
+			p.i++
+		}
+	}
+	return "", fmt.Errorf("unterminated string")
+}
+
+func (p *gqParser) value(depth int) (*node, error) {
+	if depth > 2000 {
+		return nil, fmt.Errorf("too deep")
+	}
+	p.ws()
+	if p.i >= len(p.s) {
+		return nil, fmt.Errorf("unexpected end")
+	}
+	switch c := p.s[p.i]; {
+	case c == '{':
+		p.i++
+		n := &node{K: kObj}
+		p.ws()
+		if p.i < len(p.s) && p.s[p.i] == '}' {
+			p.i++
+			return n, nil
+		}
+		for {
+			p.ws()
+			if p.i >= len(p.s) || p.s[p.i] != '"' {
+				return nil, fmt.Errorf("expected a key at %d", p.i)
+			}
+			k, err := p.str()
+			if err != nil {
+				return nil, err
+			}
+			p.ws()
+			if p.i >= len(p.s) || p.s[p.i] != ':' {
+				return nil, fmt.Errorf("expected ':' at %d", p.i)
+			}
+			p.i++
+			v, err := p.value(depth + 1)
+			if err != nil {
+				return nil, err
+			}
+			n.Keys, n.Vals = append(n.Keys, k), append(n.Vals, v)
+			p.ws()
+			if p.i < len(p.s) && p.s[p.i] == ',' {
+				p.i++
+				continue
+			}
+			if p.i < len(p.s) && p.s[p.i] == '}' {
+				p.i++
+				return n, nil
+			}
+			return nil, fmt.Errorf("expected ',' or '}' at %d", p.i)
+		}
+	case c == '[':
+		p.i++
+		n := &node{K: kArr}
+		p.ws()
+		if p.i < len(p.s) && p.s[p.i] == ']' {
+			p.i++
+			return n, nil
+		}
+		for {
+			v, err := p.value(depth + 1)
+			if err != nil {
+				return nil, err
+			}
+			n.Items = append(n.Items, v)
+			p.ws()
+			if p.i < len(p.s) && p.s[p.i] == ',' {
+				p.i++
+				continue
+			}
+			if p.i < len(p.s) && p.s[p.i] == ']' {
+				p.i++
+				return n, nil
+			}
+			return nil, fmt.Errorf("expected ',' or ']' at %d", p.i)
+		}
+	case c == '"':
+		s, err := p.str()
+		if err != nil {
+			return nil, err
+		}
+		return &node{K: kStr, S: s}, nil
+	default:
+		start := p.i
+		for p.i < len(p.s) && strings.IndexByte(",]} \t\r\n", p.s[p.i]) < 0 {
+			p.i++
+		}
+		tok := p.s[start:p.i]
+		switch tok {
+		case "true":
+			return &node{K: kBool, B: true}, nil
+		case "false":
+			return &node{K: kBool}, nil
+		case "null":
+			return &node{K: kNull}, nil
+		}
+		if !json.Valid([]byte(tok)) {
+			return nil, fmt.Errorf("unexpected token %q", tok)
+		}
+		return &node{K: kNum, N: tok}, nil
+	}
 }
